@@ -260,6 +260,8 @@ def make_mutator(label):
         flags = {m: vc.bool('flag_' + m) for m in EVALUATORS}
         model = build_model(vc, ghost, flags)
         vc.summary('pygom.model._model_verification:checkEquation', lambda it_, a, k: Opaque(parsed=a[0]))
+        if 'pygom.model._model_verification:checkEquation' not in vc.contract.frame:
+            vc.contract.frame.append('pygom.model._model_verification:checkEquation')
         meth, mkargs, accepts = mutator_cases(vc)[label]
         args = mkargs()
         v0 = ghost.ver
@@ -291,6 +293,8 @@ def make_setter(label, field, mkvalue):
         flags = {m: vc.bool('flag_' + m) for m in EVALUATORS}
         model = build_model(vc, ghost, flags)
         vc.summary('pygom.model._model_verification:checkEquation', lambda it_, a, k: Opaque(parsed=a[0]))
+        if 'pygom.model._model_verification:checkEquation' not in vc.contract.frame:
+            vc.contract.frame.append('pygom.model._model_verification:checkEquation')
         vc.summary(BASE + 'BaseOdeModel._addSymbol', lambda it_, a, k: OpaqueSymbol(symbol=a[1]))
         value = mkvalue(vc)
         v0 = ghost.ver
